@@ -74,7 +74,7 @@ pub fn c10() -> Vec<(&'static str, Vec<Op>)> {
                 wat("/b", 0, 2, 25),
             ],
         ),
-        // zone `rename-unsynced-create-cross-dir`
+        // fixed by 764d4ae (was a known finding, zone `rename-unsynced-create-cross-dir`)
         (
             "rename-new-file-into-other-dir",
             vec![
@@ -88,7 +88,7 @@ pub fn c10() -> Vec<(&'static str, Vec<Op>)> {
                 sync_dir("/d"),
             ],
         ),
-        // zone `rename-onto-unsynced-entry`
+        // zone `rename-onto-unflushed-rename`
         (
             "rename-onto-unflushed-rename-target",
             vec![
@@ -103,7 +103,7 @@ pub fn c10() -> Vec<(&'static str, Vec<Op>)> {
                 sync_dir("/d"),
             ],
         ),
-        // zone `rename-unsynced-create-cross-dir` (entry created by a rename)
+        // fixed by 764d4ae (was a known finding)
         (
             "rename-back-across-dirs",
             vec![
@@ -212,6 +212,39 @@ pub fn c07() -> Vec<(&'static str, crate::real::Cfg, Vec<Op>)> {
             ],
         ),
         // conforming regression scenarios
+        (
+            // seeded change C07-1: never-durable source entry, data synced,
+            // renamed across directories, only the destination synced
+            "publish-undurable-source-dst-synced",
+            Cfg::default(),
+            vec![
+                mkdir("/a"),
+                mkdir("/b"),
+                sync_dir("/"),
+                w("/a/a", 4, 0),
+                sync_all("/a/a"),
+                mv("/a/a", "/b/a"),
+                sync_dir("/b"),
+                Op::Crash,
+            ],
+        ),
+        (
+            // fixed by 764d4ae: the stale creation of the old name was
+            // flushed later and resurrected an empty /a/a
+            "publish-undurable-source-dst-then-src-synced",
+            Cfg::default(),
+            vec![
+                mkdir("/a"),
+                mkdir("/b"),
+                sync_dir("/"),
+                w("/a/a", 4, 0),
+                sync_all("/a/a"),
+                mv("/a/a", "/b/a"),
+                sync_dir("/b"),
+                sync_dir("/a"),
+                Op::Crash,
+            ],
+        ),
         (
             "cross-dir-rename-both-dirs-synced",
             Cfg::default(),
